@@ -13,7 +13,7 @@ package hedgepolicy
 //@ frozen execResult.result, execResult.index
 
 //@ extfunc github.com/failsafe-go/failsafe-go/policy.ExecutionInternal.CopyForHedge
-//@   modifies nothing
+//@   modifies alloftype(atomic.Uint32)
 //@   ensures result != nil && implements(result, policy.ExecutionInternal) && fresh(payload(result))
 
 // W: one attempt. Runs the inner function once; sends at most one message, only after winning the CAS on resultSent,
